@@ -76,7 +76,7 @@ def r_check_dom(rep, prog):
             rep.check(not bad, rule, "%s|call|%s" % (fn, name),
                       "dominated by check's success edge (%d path states)" % len(states),
                       "call to %s is reachable without a successful check" % name, t["span"])
-        rep.floor(rule, "guarded calls in %s" % fn.split("::")[-1], n, 4)
+        rep.floor(rule, "guarded calls in %s" % fn.split("::")[-1], n, 2)
         # failure edge returns an error
         for rn in ps.return_nodes():
             env = ps.term_env_of(rn)
